@@ -10,7 +10,10 @@ pred inBlock(f *IPFilter, ip string) := rangerHas(ifaceVal(f.blockRanger), ipByt
 // the decision table of the property statement: denied iff in a blocked and in no allowed entry,
 // or in neither or both and blockByDefault; an unparsable address gets the default
 pred allows(f *IPFilter, ip string) := !validIP(ip) ? !f.spec.BlockByDefault : ((inBlock(f, ip) && !inAllow(f, ip)) ? false : ((inAllow(f, ip) && !inBlock(f, ip)) ? true : !f.spec.BlockByDefault))
-pred wfFilter(f *IPFilter) := f != nil && f.spec != nil && f.allowRanger != nil && f.blockRanger != nil
+// what a filter built from spec s decides (New builds the rangers from the spec's CIDR lists only, so
+// two filters built from one spec decide alike: assumption of New's trusted contract)
+ufunc specAllows(s *Spec, ip string) bool
+pred wfFilter(f *IPFilter) := f != nil && f.spec != nil && f.allowRanger != nil && f.blockRanger != nil && (forall ip string :: allows(f, ip) == specAllows(f.spec, ip))
 pred wfFilters(fs *IPFilters) := fs != nil && (forall k int :: 0 <= k && k < len(fs.filters) ==> wfFilter(fs.filters[k]))
 pred allAllow(fs *IPFilters, ip string) := forall k int :: 0 <= k && k < len(fs.filters) ==> allows(fs.filters[k], ip)
 
